@@ -41,7 +41,7 @@ func c17Concurrent(r *Run) {
 	r.Param("max", max)
 	r.Param("tasks", ntasks)
 	r.Param("timeout", timeout.String())
-	sim := r.StartSim(verifsim.Config{IdleCap: time.Hour, StepCap: 100000, StallChoices: stalls, StallWeight: 8}, "rpc/plugins/limiter")
+	sim := r.StartSim(verifsim.Config{IdleCap: time.Hour, StepCap: 100000, StallChoices: stalls, StallWeight: 8, GapChoices: smallGaps, PCTSteps: 300}, "rpc/plugins/limiter")
 	var l *limiter.ConcurrentLimiter
 	if timeout > 0 {
 		l = limiter.NewConcurrentLimiter(max, timeout)
@@ -205,7 +205,7 @@ func c17Rate(r *Run, concurrent, aligned bool) {
 	r.Param("via", via)
 	// no stalls: the bound is about the limiter's admissions, not about scheduling
 	// delay between its computation and the caller's next statement
-	sim := r.StartSim(verifsim.Config{IdleCap: 100 * time.Hour, StepCap: 100000}, "rpc/plugins/limiter")
+	sim := r.StartSim(verifsim.Config{IdleCap: 100 * time.Hour, StepCap: 100000, GapChoices: smallGaps, PCTSteps: 300}, "rpc/plugins/limiter")
 	opts := []limiter.Option{}
 	if !math.IsInf(burst, 1) {
 		opts = append(opts, limiter.WithMaxPermits(burst))
